@@ -7,26 +7,12 @@ COMMON_TRUSTED = [
     "Go toolchain, runtime and standard library",
 ]
 
-CHECKS = {
-    "C13": {
-        "level": "proof",
-        "extract": ["C13"],
-        "models": ["RisorModel.C13.Model"],
-        "lemmas": ["RisorModel.C13.Lemmas"],
-        "ties": ["RisorModel.C13.Ties"],
-        "props": ["RisorModel.C13.Props"],
-        "trusted": [
-            "path/filepath.Clean/Join/IsAbs and strings.HasPrefix/TrimPrefix are modelled by hand (C13.cleanStr, join2, ...) and compared with the real functions exhaustively over the property's path alphabet on every run, not verified",
-            "that each localfs method passes every path argument through resolvePath is established by the sentinel-tree correspondence, not by proof",
-            "host-kernel symlink traversal is outside the (lexical) property",
-        ],
-        "assumptions": ["mount targets are clean absolute paths and mount keys equal Mount.Target", "Unix path separator"],
-        "level_text": "Lean 4 theorems over all path byte strings (resolvePath_confined, findMount_order_independent, counterexample for the string-prefix defect) about a model whose ResolvePath is regenerated from os/os.go on every run (tie by rfl) and whose Clean/Join/findMount are compared with the real code exhaustively over the property's alphabet; every localfs operation is run against a sentinel tree",
-        "level_note": "trusted: Lean kernel; hand model of filepath.Clean/Join tied by exhaustive correspondence only; localfs methods' use of resolvePath tied by sentinel-tree runs; symlinks out of scope",
-        "technique": "Lean 4 proof over a component-stack model of path cleaning + regenerated ResolvePath + exhaustive Go/Lean correspondence",
-        "fragment": "resolvePath_confined / findMount_order_independent: all byte strings, unbounded length",
-    },
-}
+import glob as _glob, json as _json, os as _os
+
+# one JSON file per claimed property: checks/Cnn.json
+CHECKS = {}
+for _p in sorted(_glob.glob(_os.path.join(_os.path.dirname(_os.path.abspath(__file__)), "checks", "C*.json"))):
+    CHECKS[_os.path.basename(_p)[:-5]] = _json.load(open(_p))
 
 MANIFEST_BASE = {
     "version": 1,
